@@ -299,6 +299,39 @@ theorem backing_hstep {env : Env} {cfg : Cfg} {h : HWorld} {op : HOp} {w' : Worl
               injection hs with hs; simp only [Prod.mk.injEq] at hs; rw [← hs.1]
               exact backing_hookLog hE hB hcode hh hnb h2
         · cases hhc
+      | approve sp a =>
+        -- an approval moves nothing and its log is not a `Transfer`: the hook ignores it
+        simp only [ghostAfter]
+        simp only [holderCall] at hhc
+        split at hhc
+        · injection hhc with hhc
+          simp only [Prod.mk.injEq] at hhc
+          obtain ⟨ht1, hlogs⟩ := hhc
+          subst ht1; subst hlogs
+          unfold postTx at hs
+          split at hs
+          · injection hs with hs; simp only [Prod.mk.injEq] at hs; rw [← hs.1]
+            exact backing_of_eq hB rfl rfl rfl rfl
+          · simp only [hookLogs] at hs
+            injection hs with hs; simp only [Prod.mk.injEq] at hs; rw [← hs.1]
+            exact backing_of_eq hB rfl rfl rfl rfl
+        · split at hhc
+          · cases hhc
+          · injection hhc with hhc
+            simp only [Prod.mk.injEq] at hhc
+            obtain ⟨ht1, hlogs⟩ := hhc
+            subst ht1; subst hlogs
+            unfold postTx at hs
+            split at hs
+            · injection hs with hs; simp only [Prod.mk.injEq] at hs; rw [← hs.1]
+              exact backing_of_eq hB rfl rfl rfl rfl
+            · rw [hookLogs_no_target] at hs
+              · injection hs with hs; simp only [Prod.mk.injEq] at hs; rw [← hs.1]
+                exact backing_of_eq hB rfl rfl rfl rfl
+              · intro l hl
+                simp only [List.mem_singleton] at hl
+                subst hl
+                simp [hookTarget]
       | burn a =>
         simp only [holderCall] at hhc
         cases hcode : h.w.evm.hasCode c with
@@ -508,6 +541,7 @@ theorem destroyed_only_grows_by_holder_burns (env : Env) (h : HWorld) (op : HOp)
   | evmTx c' holder call =>
     cases call with
     | transfer to a => left; rfl
+    | approve sp a => left; rfl
     | burn a =>
       simp only [ghostAfter]
       split
